@@ -49,7 +49,7 @@ impl Model for TModel {
                 Failure::MathCtor { chain: fc } if *fc == c => anyhow::bail!("injected model construction failure in chain {c}"),
                 Failure::Logp { chain: fc, eval } if *fc == c => { t = t.with_faults(vec![(*eval, FaultKind::Unrecoverable)]); *FAULT_EVALS.lock().unwrap() = Some(t.evals.clone()); }
                 Failure::Init { chain: fc } if *fc == c => t.periodic = Some((1, FaultKind::Unrecoverable)),
-                Failure::RecoverableOnly { chain: fc, period } if *fc == c => t.periodic = Some((*period, FaultKind::Recoverable)),
+                Failure::RecoverableOnly { chain: fc, period } if *fc == c || *fc == u64::MAX => t.periodic = Some((*period, FaultKind::Recoverable)),
                 _ => {}
             }
         }
@@ -122,10 +122,10 @@ impl ChainStorage for FailingChain {
 }
 
 #[derive(Clone, Debug)]
-pub struct Cfg { pub gen_seed: u64, pub gen_tier: String, pub preset: u8, pub seed: u64, pub sched: u64, pub num_chains: usize, pub num_cores: usize, pub num_tune: u64, pub num_draws: u64, pub dim: usize, pub script: Vec<(u8, u64)>, pub end_abort: bool, pub failure: Failure }
+pub struct Cfg { pub gen_seed: u64, pub gen_tier: String, pub preset: u8, pub seed: u64, pub sched: u64, pub num_chains: usize, pub num_cores: usize, pub num_tune: u64, pub num_draws: u64, pub dim: usize, pub script: Vec<(u8, u64)>, pub end_abort: bool, pub poll_finish: bool, pub failure: Failure }
 
 impl Cfg {
-    pub fn to_json(&self) -> serde_json::Value { json!({"gen_seed": self.gen_seed.to_string(), "gen_tier": self.gen_tier, "preset": self.preset, "seed": self.seed, "sched": self.sched, "num_chains": self.num_chains, "num_cores": self.num_cores, "num_tune": self.num_tune, "num_draws": self.num_draws, "dim": self.dim, "script": self.script, "end_abort": self.end_abort, "failure": format!("{:?}", self.failure)}) }
+    pub fn to_json(&self) -> serde_json::Value { json!({"gen_seed": self.gen_seed.to_string(), "gen_tier": self.gen_tier, "preset": self.preset, "seed": self.seed, "sched": self.sched, "num_chains": self.num_chains, "num_cores": self.num_cores, "num_tune": self.num_tune, "num_draws": self.num_draws, "dim": self.dim, "script": self.script, "end_abort": self.end_abort, "poll_finish": self.poll_finish, "failure": format!("{:?}", self.failure)}) }
 }
 
 /// run `$body` with `$s` bound to the settings of the configuration's preset (Diag NUTS, LowRank NUTS, Diag MCLMC)
@@ -139,12 +139,15 @@ macro_rules! with_settings {
     };
 }
 
-pub struct RunOut { pub fault_evals: u64, pub result: String, pub traces: Option<Vec<(BTreeMap<String, Vec<Cell>>, BTreeMap<String, Vec<Cell>>)>>, pub events: Vec<(u64, u8, u64)>, pub pause_obs: Vec<(Vec<usize>, Vec<usize>, Vec<usize>, usize)>, pub final_progress: Option<Vec<(usize, usize, usize, usize)>>, pub hang: bool, pub api_errors: Vec<String> }
+pub struct RunOut { pub fault_evals: u64, pub result: String, pub traces: Option<Vec<(BTreeMap<String, Vec<Cell>>, BTreeMap<String, Vec<Cell>>)>>, pub events: Vec<(u64, u8, u64)>, pub pause_obs: Vec<(Vec<usize>, Vec<usize>, Vec<usize>, usize)>, pub final_progress: Option<Vec<(usize, usize, usize, usize)>>, pub snapshots: Vec<Vec<Snap>>, pub hang: bool, pub api_errors: Vec<String> }
 
 static RUN_LOCK: std::sync::Mutex<()> = std::sync::Mutex::new(());
 
 /// drive one parallel run with the scripted commands (op, delay µs): 0 pause, 1 resume, 2 progress, 3 flush, 4 inspect
 type Maps = Vec<(BTreeMap<String, Vec<Cell>>, BTreeMap<String, Vec<Cell>>)>;
+/// one chain's progress counters as reported by `Sampler::progress()`: finished draws, divergences, step total, divergent draw indices
+pub type Snap = (usize, usize, usize, Vec<usize>);
+fn snap(p: &[nuts_rs::ChainProgress]) -> Vec<Snap> { p.iter().map(|c| (c.finished_draws, c.divergences, c.total_num_steps, c.divergent_draws.clone())).collect() }
 
 pub fn hashmap_maps(v: Vec<nuts_rs::verif_hooks::HashMapResultAlias>) -> Maps {
     v.into_iter().map(|r| (r.stats.iter().map(|(k, v)| (k.clone(), hm_cells(v))).collect(), r.draws.iter().map(|(k, v)| (k.clone(), hm_cells(v))).collect())).collect()
@@ -164,7 +167,7 @@ where S: Settings + 'static, SC: StorageConfig + 'static, <SC::Storage as TraceS
     let done2 = done.clone();
     let handle = std::thread::spawn(move || {
         let res = std::panic::catch_unwind(std::panic::AssertUnwindSafe(|| {
-            let mut out = RunOut { fault_evals: 0, result: String::new(), traces: None, events: vec![], pause_obs: vec![], final_progress: None, hang: false, api_errors: vec![] };
+            let mut out = RunOut { fault_evals: 0, result: String::new(), traces: None, events: vec![], pause_obs: vec![], final_progress: None, snapshots: vec![], hang: false, api_errors: vec![] };
             let mut sampler = match Sampler::new(model, settings, sc, cfg2.num_cores, None) { Ok(s) => s, Err(e) => { out.result = format!("new_err:{e:#}"); return out; } };
             let mut outstanding = 0usize;
             for (op, delay) in &cfg2.script {
@@ -178,14 +181,29 @@ where S: Settings + 'static, SC: StorageConfig + 'static, <SC::Storage as TraceS
                             let p2: Vec<usize> = sampler.progress().map(|p| p.iter().map(|c| c.finished_draws).collect()).unwrap_or_default();
                             out.pause_obs.push((p0, p1, p2, outstanding)); } outstanding += 1; r }
                     1 => { outstanding += 1; sampler.resume().map_err(|e| format!("{e:#}")) }
-                    2 => sampler.progress().map(|_| ()).map_err(|e| format!("{e:#}")),
+                    2 => sampler.progress().map(|p| out.snapshots.push(snap(&p))).map_err(|e| format!("{e:#}")),
                     3 => sampler.flush().map_err(|e| format!("{e:#}")),
                     _ => sampler.inspect().map(|_| ()).map_err(|e| format!("{e:#}")),
                 };
                 if let Err(e) = r { out.api_errors.push(format!("op {op}: {e}")); }
             }
+            if cfg2.poll_finish {
+                let total = (cfg2.num_tune + cfg2.num_draws) as usize;
+                let _ = sampler.resume();
+                let start = Instant::now();
+                loop {
+                    match sampler.progress() {
+                        Ok(p) => { if p.iter().all(|c| c.finished_draws >= total) { out.snapshots.push(snap(&p)); break; } }
+                        Err(e) => { out.api_errors.push(format!("progress while polling: {e:#}")); break; }
+                    }
+                    if start.elapsed() > Duration::from_secs(60) { out.result = "timeout".into(); out.hang = true; let _ = sampler.abort(); return out; }
+                    std::thread::sleep(Duration::from_millis(1));
+                }
+            }
             if cfg2.end_abort {
-                out.final_progress = sampler.progress().ok().map(|p| p.iter().map(|c| (c.finished_draws, c.divergences, c.total_num_steps, c.total_draws)).collect());
+                let pr = sampler.progress().ok();
+                if let Some(p) = &pr { out.snapshots.push(snap(p)); }
+                out.final_progress = pr.map(|p| p.iter().map(|c| (c.finished_draws, c.divergences, c.total_num_steps, c.total_draws)).collect());
                 match sampler.abort() { Ok((None, t)) => { out.result = "abort_ok".into(); out.traces = Some(to_traces(t)); } Ok((Some(e), t)) => { out.result = format!("abort_err:{e:#}"); out.traces = Some(to_traces(t)); } Err(e) => out.result = format!("abort_err:{e:#}") }
             } else {
                 // make sure a paused sampler is resumed before waiting for completion
@@ -196,7 +214,9 @@ where S: Settings + 'static, SC: StorageConfig + 'static, <SC::Storage as TraceS
                         SamplerWaitResult::Trace(t) => { out.result = "trace".into(); out.traces = Some(to_traces(t)); break; }
                         SamplerWaitResult::Err(e, t) => { out.result = format!("wait_err:{e:#}"); out.traces = t.map(to_traces); break; }
                         SamplerWaitResult::Timeout(mut s) => { if start.elapsed() > Duration::from_secs(60) { out.result = "timeout".into(); out.hang = true; let _ = s.abort(); break; }
-                            out.final_progress = s.progress().ok().map(|p| p.iter().map(|c| (c.finished_draws, c.divergences, c.total_num_steps, c.total_draws)).collect()); sampler = s; }
+                            let pr = s.progress().ok();
+                            if let Some(p) = &pr { if out.snapshots.len() < 64 { out.snapshots.push(snap(p)); } else { let k = out.snapshots.len() - 1; out.snapshots[k] = snap(p); } }
+                            out.final_progress = pr.map(|p| p.iter().map(|c| (c.finished_draws, c.divergences, c.total_num_steps, c.total_draws)).collect()); sampler = s; }
                     }
                 }
             }
@@ -209,8 +229,8 @@ where S: Settings + 'static, SC: StorageConfig + 'static, <SC::Storage as TraceS
     let start = Instant::now();
     while done.load(Ordering::SeqCst) == 0 && start.elapsed() < Duration::from_secs(120) { std::thread::sleep(Duration::from_millis(5)); }
     let mut out = if done.load(Ordering::SeqCst) == 1 {
-        match handle.join() { Ok(Ok(o)) => o, Ok(Err(p)) | Err(p) => RunOut { fault_evals: 0, result: format!("panic:{}", p.downcast_ref::<String>().cloned().or_else(|| p.downcast_ref::<&str>().map(|s| s.to_string())).unwrap_or_default()), traces: None, events: vec![], pause_obs: vec![], final_progress: None, hang: false, api_errors: vec![] } }
-    } else { RunOut { fault_evals: 0, result: "hang".into(), traces: None, events: vec![], pause_obs: vec![], final_progress: None, hang: true, api_errors: vec![] } };
+        match handle.join() { Ok(Ok(o)) => o, Ok(Err(p)) | Err(p) => RunOut { fault_evals: 0, result: format!("panic:{}", p.downcast_ref::<String>().cloned().or_else(|| p.downcast_ref::<&str>().map(|s| s.to_string())).unwrap_or_default()), traces: None, events: vec![], pause_obs: vec![], final_progress: None, snapshots: vec![], hang: false, api_errors: vec![] } }
+    } else { RunOut { fault_evals: 0, result: "hang".into(), traces: None, events: vec![], pause_obs: vec![], final_progress: None, snapshots: vec![], hang: true, api_errors: vec![] } };
     // give detached controller/worker threads a moment to finish logging
     std::thread::sleep(Duration::from_millis(30));
     out.events = take_events();
@@ -224,7 +244,7 @@ pub fn gen_cfg(seed: u64, case: u64, tier: &str, mode: u8) -> Cfg {
     // evaluation index (initialisation, step-size search, every leapfrog of the first draws, the step-size re-initialisation)
     if mode == 3 && case >= 1_000_000 {
         return Cfg { gen_seed: seed, gen_tier: tier.to_string(), preset: 0, seed: (seed.wrapping_mul(2654435761) | 1), sched: 1, num_chains: 1, num_cores: 1,
-            num_tune: 12, num_draws: 3, dim: 2, script: vec![], end_abort: false, failure: Failure::Logp { chain: 0, eval: case - 1_000_000 } };
+            num_tune: 12, num_draws: 3, dim: 2, script: vec![], end_abort: false, poll_finish: false, failure: Failure::Logp { chain: 0, eval: case - 1_000_000 } };
     }
     let mut r = Sm::new(seed, "CTL", case * 10 + mode as u64);
     let num_chains = 1 + r.below(if tier == "thorough" { 8 } else { 5 }) as usize;
@@ -257,8 +277,12 @@ pub fn gen_cfg(seed: u64, case: u64, tier: &str, mode: u8) -> Cfg {
             3 => Failure::Storage { chain, record: r.below(total.max(1)) },
             _ => Failure::RecoverableOnly { chain, period: 5 + r.below(20) },
         }
-    } else { Failure::None };
-    Cfg { gen_seed: seed, gen_tier: tier.to_string(), preset: match mode { 3 => 0, _ => (case % 3) as u8 }, seed: r.next() | 1, sched: r.next() | 1, num_chains, num_cores, num_tune, num_draws, dim: 2 + r.below(3) as usize, script, end_abort: match mode { 1 => case % 3 == 0 && case != 3, 3 => case % 2 == 0, _ => false }, failure }
+    } else if mode == 1 && case % 4 == 2 { Failure::RecoverableOnly { chain: u64::MAX, period: 3 + r.below(9) } } else { Failure::None };
+    // C11: runs with divergent draws in every chain (periodic recoverable density errors) whose progress counters are read once every chain
+    // has finished (commands after completion), then waited for or aborted
+    let poll_finish = mode == 1 && case % 4 == 2;
+    if poll_finish && num_draws < 10 { num_draws = 10; }
+    Cfg { gen_seed: seed, gen_tier: tier.to_string(), preset: match mode { 3 => 0, _ => (case % 3) as u8 }, seed: r.next() | 1, sched: r.next() | 1, num_chains, num_cores, num_tune, num_draws, dim: 2 + r.below(3) as usize, script, end_abort: match mode { 1 => case % 3 == 0 && case != 3, 3 => case % 2 == 0, _ => false }, poll_finish, failure }
 }
 
 fn emit_chain_records(cases: &mut Cases, case: u64, cfg: &Cfg, events: &[(u64, u8, u64)]) {
@@ -325,6 +349,19 @@ pub fn check_case(cfg: &Cfg, mode: u8, case: u64, cases: &mut Cases, rep: &mut R
     if !cfg.end_abort && total > 2 { for a in 0..traces.len() { for b in a + 1..traces.len() { if traces[a].1 == traces[b].1 { rep.violation("ctl.duplicate_chains", &format!("chains {a} and {b} produced identical draws"), replay.clone()); } } } }
     // progress counters agree with the traces
     if let Some(p) = &out.final_progress { if cfg.end_abort { for (c, (fin, _div, _st, tot)) in p.iter().enumerate() { if *tot != total { rep.violation("ctl.progress", &format!("chain {c}: total_draws {tot} != {total}"), replay.clone()); } if lens[c] < *fin { rep.violation("ctl.progress", &format!("chain {c}: progress reported {fin} finished draws, trace has {}", lens[c]), replay.clone()); } } } }
+    // ... at every snapshot: the divergence counters and the step total are those of the first `finished_draws` recorded draws
+    for sn in &out.snapshots { for (c, (fin, div, steps, ddraws)) in sn.iter().enumerate() {
+        let Some((st, _)) = traces.get(c) else { continue };
+        if *fin > lens[c] { continue; }
+        let (Some(dv), Some(tn)) = (st.get("diverging"), st.get("tuning")) else { continue };
+        let want: Vec<usize> = (0..*fin).filter(|i| dv[*i] == Cell::B(true) && tn[*i] == Cell::B(false)).collect();
+        if *div != want.len() || *ddraws != want { rep.violation("ctl.progress_divergences", &format!("chain {c}: progress reports {div} divergences at draws {ddraws:?} after {fin} draws, the trace has {} at {want:?}", want.len()), replay.clone()); break; }
+        if let Some(ns) = st.get("num_steps").or_else(|| st.get("n_steps")) {
+            let tot: u64 = (0..*fin).map(|i| match &ns[i] { Cell::U(x) => *x, Cell::I(x) => *x as u64, _ => 0 }).sum();
+            if tot as usize != *steps { rep.violation("ctl.progress_steps", &format!("chain {c}: progress reports {steps} steps in total after {fin} draws, the trace has {tot}"), replay.clone()); break; }
+        }
+        if !want.is_empty() { rep.hit("progress.divergences_checked"); }
+    } }
     // pause bound
     for (p0, p1, p2, outstanding) in &out.pause_obs {
         for c in 0..p0.len().min(p1.len()).min(p2.len()) {
